@@ -168,3 +168,23 @@ Theorem C17_ids_do_not_mention_uuids :
       = rmap (map row_skel) (to_rows ueqb numbered nodes).
 Proof. exact ids_equivariant. Qed.
 Print Assumptions C17_ids_do_not_mention_uuids.
+
+(* 8. the conclusions above are conditional on "the export succeeds".  The model's own failure
+   modes (out of fuel, internal error) never occur: an error of the model is always [ECrash], i.e.
+   an exception of the Python code (dangling destination, action-less basic node, a kind of action
+   the sheet vocabulary cannot express, ...), and it always comes from the DFS -- once the DFS has
+   produced its rows the remapping of the ids cannot fail (every key is present; the `.counter`
+   loop finds a free name within n+1 steps, by pigeonhole). *)
+Theorem C17_errors_are_crashes :
+  forall (U : Type) (ueqb : U -> U -> bool), (forall a b, ueqb a b = true <-> a = b) ->
+  forall (numbered : bool) (nodes : list (node U)) (e : xerr),
+    to_rows ueqb numbered nodes = Err e -> e = ECrash /\ to_rows_tmp ueqb nodes = Err ECrash.
+Proof. exact to_rows_err. Qed.
+Print Assumptions C17_errors_are_crashes.
+
+Theorem C17_remapping_total :
+  forall (U : Type) (ueqb : U -> U -> bool), (forall a b, ueqb a b = true <-> a = b) ->
+  forall (numbered : bool) (nodes : list (node U)) (tmp : list (row U (tid U))),
+    to_rows_tmp ueqb nodes = Ok tmp -> exists rows, to_rows ueqb numbered nodes = Ok rows.
+Proof. exact remap_total. Qed.
+Print Assumptions C17_remapping_total.
